@@ -1,12 +1,23 @@
 #!/bin/bash
 # usage: replay_overlay.sh <repo dir> <pkg dir rel> <driver file> <TestName> [env assignments...]
 # Runs an in-package test injected by overlay (nothing is written to the repository).
+#   SFRACE=1              run under the race detector
+#   SFSED="file|sedexpr"  additionally overlay <pkg>/<file> with a sed-rewritten copy (used only to shorten time constants
+#                         so that timer-driven code runs within the replay; the rewritten text is printed)
 set -u
 REPO="$1"; PKG="$2"; DRV="$3"; TEST="$4"; shift 4
 OV=$(mktemp /var/tmp/sfov.XXXXXX.json)
-printf '{"Replace":{"%s/%s/zz_sfreplay_test.go":"%s"}}' "$REPO" "$PKG" "$DRV" > "$OV"
-cd "$REPO" && env "$@" GOFLAGS=-mod=mod GOPROXY=off GOSUMDB=off GOTOOLCHAIN=local go test -overlay "$OV" -vet=off -count=1 -timeout 120s -ldflags=-checklinkname=0 -run "^$TEST\$" -v "./$PKG" 2>&1
+EXTRA=""; TMPF=""
+if [ -n "${SFSED:-}" ]; then
+  f="${SFSED%%|*}"; ex="${SFSED#*|}"
+  TMPF=$(mktemp /var/tmp/sfov.XXXXXX.go)
+  sed -e "$ex" "$REPO/$PKG/$f" > "$TMPF"
+  diff "$REPO/$PKG/$f" "$TMPF" | sed 's/^/overlay-edit: /'
+  EXTRA=$(printf ',"%s/%s/%s":"%s"' "$REPO" "$PKG" "$f" "$TMPF")
+fi
+printf '{"Replace":{"%s/%s/zz_sfreplay_test.go":"%s"%s}}' "$REPO" "$PKG" "$DRV" "$EXTRA" > "$OV"
+cd "$REPO" && env "$@" GOFLAGS=-mod=mod GOPROXY=off GOSUMDB=off GOTOOLCHAIN=local go test ${SFRACE:+-race} -overlay "$OV" -vet=off -count=1 -timeout 120s -ldflags=-checklinkname=0 -run "^$TEST\$" -v "./$PKG" 2>&1
 rc=$?
-rm -f "$OV"
+rm -f "$OV" $TMPF
 cd "$REPO" && git checkout -q go.mod go.sum 2>/dev/null
 exit $rc
